@@ -173,6 +173,61 @@ Theorem C02_agents_exact_with_setapi_refuted :
 Proof. exact setapi_refutes_exactness. Qed.
 Print Assumptions C02_agents_exact_with_setapi_refuted.
 
+(* remove_all_agents restores full exactness: in the state after ANY history - model.agents possibly thinned out
+   through discard/remove/select(inplace=True) - remove_all_agents() leaves the model with nobody live, every view
+   empty, and the strict invariant (model.agents a permutation of the hard references, ...) in force again.
+   Hypothesis: none of the model's registered agents is of a class that overrides remove() (remove_all_agents calls
+   agent.remove() with dynamic dispatch; C02_remove_all_with_overriding_remove_refuted shows what overrides can do) *)
+Theorem C02_remove_all_restores_exactness : forall n ops m ms,
+  let w := final (init n) ops in
+  getm (w_models w) m = Some ms ->
+  (forall k a, In k (m_hard ms) -> find_agent (w_born w) k = Some a -> ov_of (a_cls a) = None) ->
+  let w' := remove_all w m in
+  exists ms', getm (w_models w') m = Some ms' /\
+    live m (w_born w') (w_removed w') = [] /\
+    m_hard ms' = [] /\ m_all ms' = [] /\ (forall c l, bt_get c (m_bt ms') = Some l -> l = []) /\
+    minv true (w_born w') (w_removed w') m ms'.
+Proof. intros n ops m ms w. exact (thm_remove_all_restores false w m ms (reachable_inv_weak n ops)). Qed.
+Print Assumptions C02_remove_all_restores_exactness.
+
+(* Agent subclasses overriding remove() (three shapes: work first and super().remove() late; super().remove() first
+   and work afterwards; no super().remove() at all - the work being the construction of further agents).  They
+   are part of every theorem above: hard references, agents_by_type, agent_types, ids, soundness/exactness of
+   model.agents, independence and the projection hold for all histories in which agent.remove(), remove_all_agents
+   and callbacks dispatch to such overrides; an agent whose override never reaches Agent.remove simply stays live.
+   What does NOT survive is "remove_all_agents empties the model": *)
+Theorem C02_remove_all_with_overriding_remove_refuted :
+  exists ops ms, let w := final (init 1) ops in
+    getm (w_models w) 0 = Some ms /\ m_hard ms = [1; 2] /\ m_all ms = [1; 2] /\
+    live 0 (w_born w) (w_removed w) = [1; 2] /\ map a_cls (w_born w) = [6; 7; 3].
+Proof. exact remove_all_with_override_refuted. Qed.
+Print Assumptions C02_remove_all_with_overriding_remove_refuted.
+
+(* an overridden remove() touches the agent's own model only (its constructions are for self.model): the heap
+   grows by agents of that model, every other model's registry and id counter stay as they are *)
+Theorem C02_overridden_remove_is_local : forall w k j,
+  (forall a, find_agent (w_born w) k = Some a -> a_model a <> j) ->
+  getm (w_models (obj_remove w k)) j = getm (w_models w) j.
+Proof. exact obj_remove_frame. Qed.
+Print Assumptions C02_overridden_remove_is_local.
+
+(* agent_types (= the keys of agents_by_type), EXACTLY, after any history: the classes ever instantiated for the
+   model, in order of first creation.  Together with C02_by_type_exact: a class whose last agent was removed stays
+   listed, with an empty AgentSet. *)
+Theorem C02_agent_types_exact : forall n ops m ms,
+  getm (w_models (final (init n) ops)) m = Some ms ->
+  map fst (m_bt ms) = classes_ever m (w_born (final (init n) ops)).
+Proof. exact thm_agent_types_exact. Qed.
+Print Assumptions C02_agent_types_exact.
+
+(* "agent_types names every class that has a live agent" (C02_agent_types_cover) - and it may name more: *)
+Theorem C02_agent_types_may_name_class_without_live_agent :
+  exists ops ms, let w := final (init 1) ops in
+    getm (w_models w) 0 = Some ms /\ map fst (m_bt ms) = [3; 1] /\ bt_get 3 (m_bt ms) = Some [] /\
+    live_cls 0 3 (w_born w) (w_removed w) = [] /\ live 0 (w_born w) (w_removed w) = [1].
+Proof. exact agent_types_names_dead_class. Qed.
+Print Assumptions C02_agent_types_may_name_class_without_live_agent.
+
 (* ---------- coexisting models: the projection theorem ---------- *)
 (* For every interleaved history over any number of models (from ANY state w): the final state of model m -
    hard references, model.agents, agents_by_type, id counter - is what m's own events alone make of m's
@@ -253,3 +308,22 @@ Example C02_example_projection :
      EvRemove 1 2; EvRemove 1 2] /\
   setapi_free ex_ops = true.
 Proof. vm_compute. repeat split; reflexivity. Qed.
+
+(* remove_all_agents after an AgentSet-API removal: model 0 had agent 1 discarded from model.agents *)
+Example C02_example_remove_all_restores :
+  let w := final (init 1) [Create 0 0 1; Create 0 1 2; SetDiscard 0 1 false] in
+  (exists ms, getm (w_models w) 0 = Some ms /\ m_all ms = [0] /\ m_hard ms = [0; 1]) /\
+  (exists ms', getm (w_models (remove_all w 0)) 0 = Some ms' /\ m_all ms' = [] /\ m_hard ms' = [] /\
+               map fst (m_bt ms') = [0; 1] /\ classes_ever 0 (w_born w) = [0; 1]).
+Proof. vm_compute. split; eexists; repeat split; reflexivity. Qed.
+
+(* overriding remove(): agent 0 (class 5) constructs a D agent and then calls super().remove(); agent 1 (class 7)
+   never calls it; a callback of model 0's activation removes an agent of model 1 *)
+Example C02_example_overrides :
+  let w := final (init 2) [Create 0 5 1; Create 0 7 2; Create 1 0 3; Remove 0; Remove 1;
+                           Activate 0 None None [(1, ARemove 2)]] in
+  exists m0 m1, getm (w_models w) 0 = Some m0 /\ getm (w_models w) 1 = Some m1 /\
+    m_all m0 = [1; 3] /\ m_hard m0 = [1; 3] /\ map a_cls (w_born w) = [5; 7; 0; 3] /\ m_next m0 = 4 /\
+    m_all m1 = [] /\ w_removed w = [2; 0] /\
+    (forall k a, In k (m_hard m1) -> find_agent (w_born w) k = Some a -> ov_of (a_cls a) = None).
+Proof. vm_compute. eexists. eexists. repeat split; try reflexivity. intros k a []. Qed.
